@@ -22,7 +22,10 @@ RULE = (
     "the seeded rng - the one-shot kinds can be consumed only once). quick: seeded sample; thorough: "
     "the full product. On top: a LARGE-store stream (the small structure plus 1000..2300 tiny planted file "
     "objects - sizes on and around multiples of fs.LIST_OBJECT_PAGE_SIZE=1000 - of which 0..3 are used; dry "
-    "and real, both store classes; 32-hex md5 names and short 5-hex names) and a medium stream (20..999). "
+    "and real, both store classes; 32-hex md5 names and short 5-hex names), a medium stream (20..999) and SKEWED "
+    "stores (16..400 crafted objects under the prefix directory 00 - from 1000*256/fs.jobs/256 of them on ObjectDB.all() "
+    "lists the store prefix by prefix - with garbage under a few sparse later prefixes, all other prefix "
+    "directories missing; fixed cases with 300 under 00 in every run, both classes, dry and real). "
     "Next to some directory objects (used, unused, absent) a legacy <oid>.dir.unpacked directory with files is "
     "planted. An AUDIT block (tools/COVERAGE_AUDIT.md) of ~110 fixed cases runs in every run of both tiers: every "
     "flag and pair (shallow x dry x class x jobs, declared defaults, positional call, read_only x dry x cache_odb), "
@@ -111,6 +114,13 @@ def bulk_oids(b):
         return {}
     if b.get("shape", "md5") == "md5":
         return {f"B{i}": impl.md5hex(b"bulk-%d" % i) for i in range(b["n"])}
+    if b["shape"] == "skew":
+        # a SKEWED store: n00 objects under the prefix directory 00 (ObjectDB.all() estimates the size
+        # of the store from that prefix: 256 * n00 objects; from 1000 * 256 / fs.jobs on it lists the
+        # other 255 prefixes one by one instead of walking the whole store), the others under a few
+        # sparse later prefixes - every other prefix directory is missing
+        pf = b["prefixes"]
+        return {f"B{i}": ("00" if i < b["n00"] else pf[(i - b["n00"]) % len(pf)]) + "%030x" % i for i in range(b["n"])}
     # short names: 5 hex chars -> <store>/<2>/<3>; never collide with 32-hex names or '.dir' names
     return {f"B{i}": "%05x" % (0x10000 + i) for i in range(b["n"])}
 
@@ -295,8 +305,10 @@ def run_case(ctx, case, fo, dirs, F):
         real_remove = odb.fs.remove
 
         def failing_remove(paths, *a, **kw):
-            if isinstance(paths, str) and paths.endswith(".unpacked"):
-                return real_remove(paths, *a, **kw)  # odb._remove_unpacked_dir: the legacy side directory, not objects
+            if isinstance(paths, str):
+                # not gc's batch removal of object paths (a list): e.g. odb._remove_unpacked_dir on the
+                # legacy side directory <oid>.dir.unpacked
+                return real_remove(paths, *a, **kw)
             calls["n"] += 1
             if calls["n"] == fault["remove_call"]:
                 raise InjectedFault(errno.EIO, "injected I/O error")
@@ -416,11 +428,6 @@ def run_case(ctx, case, fo, dirs, F):
         if after != before:
             problems.append(("C06:error-but-modified", "gc raised but had already removed objects"))
     else:
-        if fault and not case["dry"] and unused and not load_fail:
-            expected_calls = len({o.endswith(".dir") for o in unused})
-            if fault["remove_call"] <= expected_calls:
-                problems.append(("C06:fault:swallowed", f"the injected fs.remove error (call {fault['remove_call']}) "
-                                                        f"did not surface: gc returned {res[1]}"))
         lost_used = [o for o in before if o in used_set and o not in after]
         if lost_used:
             problems.append(("C06:removed-used", f"used object(s) removed (used handed over as {kind}): {_few(lost_used)}"))
@@ -437,9 +444,25 @@ def run_case(ctx, case, fo, dirs, F):
                 problems.append(("C06:store-altered", "gc altered or created objects"))
         if not load_fail and res[1] != len(unused):
             problems.append(("C06:count", f"returned {res[1]}, unused objects: {len(unused)}"))
+        if fault and not case["dry"] and unused and not load_fail:
+            expected_calls = len({o.endswith(".dir") for o in unused})
+            if fault["remove_call"] <= expected_calls:
+                problems.append(("C06:fault:swallowed", f"the injected fs.remove error (call {fault['remove_call']}) "
+                                                        f"did not surface: gc returned {res[1]}"))
     nontrivial = res[0] != "ok" or (0 < len(after) < len(before))
+    n00 = sum(1 for o in before if o.startswith("0" * odb.fs.TRAVERSE_PREFIX_LEN))
+    traverse = odb.fs.CAN_TRAVERSE and (max(n00, 1) * 16 ** odb.fs.TRAVERSE_PREFIX_LEN / odb.fs.LIST_OBJECT_PAGE_SIZE
+                                        >= 256 / odb.fs.jobs)
+    prefix_dirs = {o[:2] for o in before}
     run_case.last_dims = dimensions(case, alg, case_used, names, his, before, unused, used_set, doid, cdirs, trees,
                                     foid, res, explicit_cache, cache_alg)
+    if traverse:
+        run_case.last_dims.add("size/skew: ObjectDB.all() lists prefix by prefix (traverse strategy; fs.jobs=%d)" % odb.fs.jobs)
+        later = sorted(p_ for p_ in prefix_dirs if p_ != "00")
+        if later and any(("%02x" % i) not in prefix_dirs for i in range(1, int(later[-1], 16))):
+            run_case.last_dims.add("size/skew: traverse strategy with a missing prefix directory before a populated one")
+            if any(o[:2] != "00" for o in unused):
+                run_case.last_dims.add("size/skew: traverse strategy, garbage under a prefix after a missing prefix directory")
     impl.rm_rf(root)
     return inp, exp, problems, nontrivial, res
 
@@ -600,7 +623,8 @@ def dimensions(case, alg, case_used, names, his, before, unused, used_set, doid,
     if case.get("fault"):
         d.add(f"faults: fs.remove call {case['fault']['remove_call']} raises EIO" + (" (dry)" if dry else ""))
     if case.get("bulk"):
-        d.add("size: " + ("store beyond the listing page size (>= 1000 unused)" if case["bulk"]["n"] >= 1000 else "medium store"))
+        d.add("size: " + ("store beyond the listing page size (>= 1000 unused)" if case["bulk"]["n"] >= 1000 else
+                          ("skewed store (bulk under prefix 00)" if case["bulk"]["shape"] == "skew" else "medium store")))
     d.add("used container: " + case.get("used_kind", "list"))
     d.add("store class: " + case.get("cls", "local"))
     d.add("store algorithm: " + alg)
@@ -814,6 +838,24 @@ def audit_cases(fo):
         sep_cache=True)
     add("route: API-built store with unusual names", route="api", xdirs=N, xfiles=W, files=[0, 1, 2, "w1", "w2", "w3"],
         dirs=["DN"], used=[["md5", "DN"]])
+    # -- store size / skew: >= 300 objects under prefix 00 make ObjectDB.all() list the store prefix by prefix
+    #    (threshold 1000 * 256 / fs.jobs / 256 = 250 objects on ONE cpu, 16 on this machine); the later prefixes
+    #    are sparse, so most prefix directories are missing, also BEFORE populated ones
+    sk = 0
+    for cls in ("local", "base"):
+        for dry in (True, False):
+            pf = [["01", "3c", "ff"], ["02", "fe"], ["7f", "80", "81"], ["ff"]][sk]
+            n = 300 + [9, 6, 12, 5][sk]
+            add("size/skew: traverse strategy, sparse later prefixes", cls=cls, dry=dry, shallow=bool(sk % 2),
+                bulk={"n": n, "shape": "skew", "n00": 300, "prefixes": pf, "used": [0, 150, 301, n - 1]},
+                used_kind=["list", "generator", "set", "tuple"][sk])
+            sk += 1
+    add("size/skew: traverse strategy, everything garbage, separate cache", used=[], sep_cache=True,
+        bulk={"n": 320, "shape": "skew", "n00": 310, "prefixes": ["0f", "f0"], "used": []})
+    add("size/skew: just below / at the one-cpu threshold (249 / 250 under 00)", dry=True,
+        bulk={"n": 255, "shape": "skew", "n00": 249, "prefixes": ["aa", "ab"], "used": [250]})
+    add("size/skew: just below / at the one-cpu threshold (249 / 250 under 00)",
+        bulk={"n": 256, "shape": "skew", "n00": 250, "prefixes": ["aa", "ab"], "used": [251]}, cls="base")
     # -- faults: fs.remove fails on the first (directory objects) / the last (files) call
     for k in (1, 2):
         for cls in ("local", "base"):
@@ -890,6 +932,17 @@ def gen_bulk(ctx, cases):
         sprinkle_unpacked(rng, c, ["D1", "D2", "D3"])
         if rng.random() < 0.2:
             c["stray"] = True
+        out.append(c)
+    # skewed stores (bulk under prefix 00 -> ObjectDB.all() lists prefix by prefix), random sparse later prefixes
+    for _ in range(ctx.n(2, 8)):
+        base = dict(rng.choice(cases))
+        n00 = rng.choice([16, 17, 64, 250, 251, rng.randint(252, 400)])
+        pf = sorted({"%02x" % rng.randint(1, 255) for _ in range(rng.randint(1, 5))})
+        n = n00 + rng.randint(1, 12)
+        k = rng.choice([0, 1, 2, 3])
+        c = {**base, "dry": rng.random() < 0.5, "cls": rng.choice(classes), "used_kind": rng.choice(USED_KINDS),
+             "bulk": {"n": n, "shape": "skew", "n00": n00, "prefixes": pf, "used": sorted(rng.sample(range(n), k))}}
+        sprinkle_cache(rng, c, ["D1", "D2", "D3"])
         out.append(c)
     return out
 
